@@ -62,7 +62,7 @@ Proof.
   - intros a b c [H1 H2] [H3 H4]. split; congruence.
   - intros c c' [_ H]. exact H.
   - intros c c' H. destruct (expire_frame _ _ H) as [A [B _]]. auto.
-  - intros c n od. simpl. auto.
+  - intros c fo n od. simpl. auto.
   - intros c id data _. simpl. auto.
   - intros c id data c3 _ _ H. destruct (expire_frame _ _ H) as [A [B _]]. simpl in *. auto.
   - intros c k d _. simpl. auto.
@@ -80,7 +80,7 @@ Proof.
   - intros c c' [_ H]. exact H.
   - intros c c' H. split; [ exact (expire_sub _ _ H) | ].
     destruct (expire_frame _ _ H) as [_ [B _]]. exact B.
-  - intros c n od. simpl. split; [ apply sub_refl | reflexivity ].
+  - intros c fo n od. simpl. split; [ apply sub_refl | reflexivity ].
   - intros c id data [].
   - intros c id data c3 [].
   - intros c k d [].
@@ -102,7 +102,7 @@ Proof.
   - intros c c' H. destruct (expire_frame _ _ H) as [A [B _]].
     split; [ exact A | ]. split; [ exact B | ].
     apply live_sub. exact (expire_sub _ _ H).
-  - intros c n od. simpl. auto.
+  - intros c fo n od. simpl. auto.
   - intros c id data Hw. simpl. split; [ reflexivity | ]. split; [ reflexivity | ].
     intros Hl kd Hin. apply in_app_or in Hin. destruct Hin as [Hin | [<- | []]]; [ auto | exact Hw ].
   - intros c id data c3 Hw _ H. destruct (expire_frame _ _ H) as [A [B _]]. simpl in *.
@@ -153,7 +153,7 @@ Proof.
     split; [ exact A | ]. split; [ exact B | ]. intros _ kd Hin.
     destruct (expire_keeps _ _ _ H Hin) as [Hin' | Hx]; [ left | right; exact Hx ].
     exists (snd kd). destruct kd. simpl. auto.
-  - intros c n od. simpl. split; [ reflexivity | ]. split; [ reflexivity | ].
+  - intros c fo n od. simpl. split; [ reflexivity | ]. split; [ reflexivity | ].
     intros _. apply kept_refl.
   - intros c id data _. simpl. split; [ reflexivity | ]. split; [ reflexivity | ].
     intros _ kd Hin. left. exists (snd kd). destruct kd. simpl. split; [ | auto ].
